@@ -1,6 +1,7 @@
 """Registry of checks: how each property's harness is built and run."""
 
 ENGINE = ["internal/verifeng"]
+BUBBLE = ENGINE + ["internal/verifbubble", "internal/verifdetrt"]
 
 CHECKS = {
     "C16": {
@@ -64,5 +65,29 @@ CHECKS = {
         "rule": "exhaustive product: target block tip 0-4 x filter lag 0-2 x agreeing/forked target chain x file start 0-4 x file length 1-4 x write batch size {default,1,2,3} x corruption {none, broken link, bad proof of work, wrong bits (each at every file position), wrong network magic, truncated file, filter count mismatch, filter start mismatch}; in the fault run every durable step of the stores additionally answers with every fault kind (<=1).",
         "bounds": {"quick": "chains of 7 mined regtest headers; <=1 injected fault", "thorough": "same product; <=1 injected fault"},
         "assumptions": ["regtest parameters (no retargeting)", "filter headers are synthetic (the importer cannot validate them beyond checkpoints)", "in-memory walletdb; real files on tmpfs"],
+    },
+    "C11": {
+        "pkg": "./blockntfns",
+        "test": "TestVFXC11",
+        "overlay": BUBBLE + ["blockntfns/zz_vfx_c11_test.go"],
+        "detrt": True,
+        "shards": {"quick": 16, "thorough": 16},
+        "budget_s": {"quick": 150, "thorough": 3000},
+        "level": "model_checking",
+        "rule": "every ordering of stimuli (subscribe from 0 / from the tip, cancel (up to twice per client), emit one event, emit a burst of 25, read one, drain, stop) delivered one per quiescent point of the real SubscriptionManager in a synctest bubble, up to the depth; clients that never read are part of every ordering.",
+        "bounds": {"quick": "depth 6, 2 clients", "thorough": "depth 8, 3 clients"},
+        "assumptions": ["stimuli are delivered only when every goroutine of the component is durably blocked (one stimulus at a time); internal select order fixed by the determinised runtime", "events are Connected notifications with increasing heights"],
+    },
+    "C15": {
+        "pkg": "./pushtx",
+        "test": "TestVFXC15",
+        "overlay": BUBBLE + ["pushtx/zz_vfx_c15_test.go"],
+        "detrt": True,
+        "shards": {"quick": 16, "thorough": 16},
+        "budget_s": {"quick": 150, "thorough": 3000},
+        "level": "model_checking",
+        "rule": "every ordering of stimuli (a caller starts Broadcast(tx), block event, interval tick, MarkAsConfirmed(tx), each parked Broadcast callback returns with one of 5 answers, Stop, API calls after Stop) delivered one per quiescent point of the real Broadcaster in a synctest bubble, up to the depth; at most one stimulus is queued behind a busy handler.",
+        "bounds": {"quick": "depth 7; transactions parent, child, grandchild", "thorough": "depth 9; parent, child, grandchild, unrelated"},
+        "assumptions": ["virtual clock; Config.Broadcast and the block subscription are harness-owned", "the reject-threshold verdict of ChainService.sendTransaction is not part of this harness"],
     },
 }
